@@ -9,7 +9,7 @@ wt=$(mktemp -d /tmp/vtry-wt.XXXXXX); rmdir "$wt"
 vd=$(mktemp -d /tmp/vtry-vd.XXXXXX)
 if [ -f "$src" ]; then
   git -C /repo worktree add -q --detach "$wt" HEAD || exit 2
-  git -C "$wt" apply "$src" || { echo "patch does not apply"; git -C /repo worktree remove --force "$wt"; exit 2; }
+  git -C "$wt" apply "$(realpath "$src")" || { echo "patch does not apply"; git -C /repo worktree remove --force "$wt"; exit 2; }
 elif [ "$src" = "-" ]; then
   git -C /repo worktree add -q --detach "$wt" HEAD || exit 2
 else
